@@ -148,6 +148,7 @@ type Env struct {
 	Verbose bool
 	PropID  string
 	simSeconds float64
+	frozen  bool
 }
 
 const histCap = 400
@@ -160,6 +161,11 @@ func NewEnv(prop string, seed uint64, ch *Chooser) *Env {
 func (e *Env) Rec(stream, kind, detail string, hashed bool) int {
 	e.mu.Lock()
 	defer e.mu.Unlock()
+	if e.frozen {
+		// teardown is not part of the run: engines are stopped and links cut without the one-stimulus
+		// discipline, so what happens there is neither judged nor part of the canonical trace
+		return e.nEvents
+	}
 	e.nEvents++
 	ev := Event{N: e.nEvents, T: time.Since(e.T0).Seconds(), Stream: stream, Kind: kind, Detail: detail}
 	if len(e.hist) < histCap {
@@ -278,3 +284,16 @@ func mix(a, b, c uint64) uint64 {
 	return z
 }
 
+
+func (e *Env) StreamHashes() map[string]uint64 {
+	e.mu.Lock()
+	defer e.mu.Unlock()
+	m := map[string]uint64{}
+	for k, v := range e.streams {
+		m[k] = v
+	}
+	return m
+}
+
+// Freeze ends the recorded part of the run (called at the start of teardown).
+func (e *Env) Freeze() { e.mu.Lock(); e.frozen = true; e.mu.Unlock() }
